@@ -405,7 +405,7 @@ func Never() Observable[struct{}] {
 	return NewUnsafeObservableWithContext(func(subscriberCtx context.Context, destination Observer[struct{}]) Teardown {
 		done := make(chan struct{})
 
-		go func() {
+		go recoverUnhandledError(func() {
 			for {
 				select {
 				case <-subscriberCtx.Done():
@@ -420,7 +420,7 @@ func Never() Observable[struct{}] {
 					return
 				}
 			}
-		}()
+		})
 
 		return func() {
 			close(done)
